@@ -30,6 +30,13 @@ def snippets():
     add('field-after-dummy', [D('char', '1'), F('x1', 'char')])
     add('dummy-after-dummy', [D('char', '1'), D('char', '2')])
     add('switch-after-dummy', [F('k9', 'char'), D('char', '1'), SW('k9', CASE('1'))])
+    # flags set inside a switch case are merged back into the enclosing body (any case, not only the last)
+    add('required-after-optional-in-first-case', [F('k5', 'char'), SW('k5', CASE('1', F('o5', 'char', optional='true')), CASE('2', F('z5', 'char'))), F('r5', 'char')])
+    add('required-after-optional-in-last-case', [F('k5', 'char'), SW('k5', CASE('1', F('z5', 'char')), CASE('2', F('o5', 'char', optional='true'))), F('r5', 'char')])
+    add('required-after-optional-in-default-case', [F('k5', 'char'), SW('k5', CASE('1', F('z5', 'char')), CASE(None, F('o5', 'char', optional='true'), default=True)), A('r5', 'char', length='1')])
+    add('field-after-dummy-in-first-case', [F('k5', 'char'), SW('k5', CASE('1', D('char', '1')), CASE('2', F('z5', 'char'))), F('r5', 'char')])
+    add('field-after-dummy-in-last-case', [F('k5', 'char'), SW('k5', CASE('1', F('z5', 'char')), CASE('2', D('char', '1'))), F('r5', 'char')])
+    add('field-after-dummy-in-middle-case', [F('k5', 'char'), SW('k5', CASE('1'), CASE('2', D('short', '1')), CASE('3')), D('char', '2')])
     add('unnamed-without-value', [F(None, 'char')])
     add('unnamed-optional', [F(None, 'char', '1', optional='true')])
     add('dummy-without-value', [{'tag': 'dummy', 'attrs': {'type': 'char'}, 'text': None}])
